@@ -583,12 +583,17 @@ def atomic_diffs(a, b, path="", out=None):
     ta, tb = is_term(a), is_term(b)
     if ta and tb:
         if a[0] in LEAF_TAGS and b[0] in LEAF_TAGS:
-            if a[0] == b[0] or {a[0], b[0]} <= {"glob", "func"} or {a[0], b[0]} <= {"param", "carried", "loopout", "loopvar", "bv"}:
-                out.append(f"{path}: {_short(a)} instead of {_short(b)}")
-                return out
-            return None
+            out.append(f"{path}: {_short(a)} instead of {_short(b)}")
+            return out
+        # a negated condition / swapped branches
+        if a == ("not", b) or b == ("not", a) or a == ("unop", "not", b) or b == ("unop", "not", a):
+            out.append(f"{path}: condition negated")
+            return out
         if a[0] != b[0]:
             return None
+        if a[0] in ("if", "ifnone") and len(a) == 4 and a[1] == b[1] and a[2] == b[3] and a[3] == b[2]:
+            out.append(f"{path}: the two branches of a condition are swapped (condition negated)")
+            return out
         if a[0] == "op" and len(a) == 5 and len(b) == 5:
             if a[1] != b[1]:
                 out.append(f"{path}: operation {a[1]} instead of {b[1]}")
